@@ -29,7 +29,7 @@ fn thue_morse(len: usize) -> Vec<u8> {
     (0..len).map(|i| if (i as u64).count_ones() % 2 == 0 { b'a' } else { b'b' }).collect()
 }
 
-const FAMILIES: [&str; 16] = [
+const FAMILIES: [&str; 22] = [
     "am1b_in_a",            // a^(m-1)b in a^n: every position a long partial match
     "am1b_in_am1c",         // a^(m-1)b in (a^(m-1)c)^r
     "am1b_in_am2_bm1",      // a^(m-1)b in (a^(m-2) b^(m-1))^r: every a is a candidate that fails late
@@ -43,6 +43,12 @@ const FAMILIES: [&str; 16] = [
     "prefix_then_dense",    // huge candidate-free prefix, then dense false candidates (prefilter stays on)
     "rk_collision",         // a^(m-33) b a^32 in a^n (2^32 hash collisions)
     "zqee_periodic_blocks", // small-period needle (zqee)^k against blocks of its own period broken every m-1
+    "prefix_breaks_period", // ' ' (zq)^k in (zq)^n: the rare pair lies in the periodic part
+    "suffix_breaks_period", // (zq)^k ' ' in (zq)^n (mirror image)
+    "b_then_a_run",         // b a^k in a^n b a^(k-1) ... with b planted so that the prefilter stays busy
+    "a_run_then_b",         // mirror image
+    "matches_then_barren",  // a^m matches densely in the first half, second half barren
+    "barren_then_matches",  // mirror image
     "dense_1byte",          // needle "a" in a^n
     "dense_2byte",          // needle "aa" in a^n
     "dense_empty",          // empty needle in any haystack
@@ -144,6 +150,43 @@ fn instance(family: &str, n: usize, m: usize) -> (Vec<u8>, Vec<u8>) {
             h.extend(rep(&u, n - n / 2));
             (nd, h)
         }
+        "prefix_breaks_period" => {
+            let mut nd = vec![b' '];
+            nd.extend(rep(b"zq", m - 1));
+            (nd, rep(b"zq", n))
+        }
+        "suffix_breaks_period" => {
+            let mut nd = rep(b"zq", m - 1);
+            nd.push(b' ');
+            (nd, rep(b"zq", n))
+        }
+        "b_then_a_run" => {
+            let mut nd = vec![b'a'; m];
+            nd[0] = b'b';
+            // b a^(m-2) c repeated: every b starts a long partial match
+            let mut u = vec![b'a'; m];
+            u[0] = b'b';
+            u[m - 1] = b'c';
+            (nd, rep(&u, n))
+        }
+        "a_run_then_b" => {
+            let mut nd = vec![b'a'; m];
+            nd[m - 1] = b'b';
+            let mut u = vec![b'a'; m];
+            u[0] = b'c';
+            u[m - 1] = b'b';
+            (nd, rep(&u, n))
+        }
+        "matches_then_barren" => {
+            let mut h = vec![b'a'; n / 2];
+            h.extend(vec![b'x'; n - n / 2]);
+            (vec![b'a'; m.min(64)], h)
+        }
+        "barren_then_matches" => {
+            let mut h = vec![b'x'; n / 2];
+            h.extend(vec![b'a'; n - n / 2]);
+            (vec![b'a'; m.min(64)], h)
+        }
         "dense_1byte" => (b"a".to_vec(), vec![b'a'; n]),
         "dense_2byte" => (b"aa".to_vec(), vec![b'a'; n]),
         "dense_empty" => (vec![], vec![b'a'; n]),
@@ -151,12 +194,26 @@ fn instance(family: &str, n: usize, m: usize) -> (Vec<u8>, Vec<u8>) {
     }
 }
 
-const OPS: [&str; 6] = ["find", "rfind", "find_iter", "rfind_iter", "memmem_find", "memmem_rfind"];
+const OPS: [&str; 8] = ["find", "rfind", "find_iter", "rfind_iter", "memmem_find", "memmem_rfind", "find_nopre", "find_iter_nopre"];
 
 #[inline(never)]
 fn measured_call(op: &str, needle: &[u8], hay: &[u8]) -> u64 {
     match op {
         "find" => memmem::Finder::new(needle).find(hay).map(|x| x as u64 + 1).unwrap_or(0),
+        "find_nopre" => memmem::FinderBuilder::new()
+            .prefilter(memmem::Prefilter::None)
+            .build_forward(needle)
+            .find(hay)
+            .map(|x| x as u64 + 1)
+            .unwrap_or(0),
+        "find_iter_nopre" => {
+            let f = memmem::FinderBuilder::new().prefilter(memmem::Prefilter::None).build_forward(needle);
+            let mut c = 0u64;
+            for p in f.find_iter(hay) {
+                c = c.wrapping_add(p as u64 + 1);
+            }
+            c
+        }
         "rfind" => memmem::FinderRev::new(needle).rfind(hay).map(|x| x as u64 + 1).unwrap_or(0),
         "find_iter" => {
             let mut c = 0u64;
@@ -190,14 +247,14 @@ fn main() {
             // mirror-image worst cases only for bam1_in_a, but must be linear
             // everywhere); one-shot memmem::{find,rfind} on the families where
             // the < 64 / Rabin-Karp routing matters
-            let ops: &[&str] = if dense {
+            let ops: &[&str] = if dense || fam.contains("barren") {
                 &["find_iter", "rfind_iter"]
             } else if fam == "rk_collision" || fam == "am1b_in_a" {
-                &["find", "rfind", "find_iter", "rfind_iter", "memmem_find", "memmem_rfind"]
+                &["find", "rfind", "find_iter", "rfind_iter", "memmem_find", "memmem_rfind", "find_nopre"]
             } else if thorough {
-                &["find", "rfind", "find_iter", "rfind_iter"]
+                &["find", "rfind", "find_iter", "rfind_iter", "find_nopre", "find_iter_nopre"]
             } else {
-                &["find", "rfind", "find_iter"]
+                &["find", "rfind", "find_iter", "find_nopre"]
             };
             for &n in ns {
                 for &m in if dense { &ms[..1] } else { ms } {
